@@ -153,13 +153,18 @@ Init ==
 CurSub(c) == Submissions[c[2]][loc[c].sub]
 
 C_Next(c) ==
+  /\ Live(c)
   /\ pc[c] = "c_next" /\ loc[c].sub < Len(Submissions[c[2]])
-  /\ GotoL(c, "c_register", [loc[c] EXCEPT !.sub = @ + 1, !.k = 0])
+  /\ LET nxt == Submissions[c[2]][loc[c].sub + 1] IN
+       \* kind "dup": a duplicate message of an already routed id (at-least-once delivery)
+       IF nxt.kind = "dup" THEN GotoL(c, "c_route", [loc[c] EXCEPT !.sub = @ + 1, !.k = 1])
+       ELSE GotoL(c, "c_register", [loc[c] EXCEPT !.sub = @ + 1, !.k = 0])
   /\ UNCHANGED <<queue, rec, indexed, retries, result, exc, hist, histq, alive, aged, expired, stopping,
                  clock, accepted, execs, done, inBody, epoch, changes, crashes>>
 
 \* _register_new_invocations: one shared REGISTERED record for all ids of the submission
 C_Register(c) ==
+  /\ Live(c)
   /\ pc[c] = "c_register"
   /\ LET ids == CurSub(c).invs S == ToSet(ids) IN
      /\ rec' = [i \in Inv |-> IF i \in S THEN Registered(c[2], clock) ELSE rec[i]]
@@ -172,10 +177,12 @@ C_Register(c) ==
 
 \* broker.route_invocations: one push per id
 C_Route(c) ==
+  /\ Live(c)
   /\ pc[c] = "c_route"
   /\ LET ids == CurSub(c).invs k == loc[c].k IN
      /\ queue' = Append(queue, ids[k])
      /\ IF k < Len(ids) THEN GotoL(c, "c_route", [loc[c] EXCEPT !.k = k + 1])
+        ELSE IF CurSub(c).kind = "dup" THEN Goto(c, "c_next") /\ UNCHANGED loc
         ELSE IF CurSub(c).kind = "single" /\ Mode # "disabled" THEN Goto(c, "c_index") /\ UNCHANGED loc
         ELSE Goto(c, "c_return") /\ UNCHANGED loc
   /\ UNCHANGED <<rec, indexed, retries, result, exc, hist, histq, alive, aged, expired, stopping, clock,
@@ -183,6 +190,7 @@ C_Route(c) ==
 
 \* index_arguments_for_concurrency_control: single-call path only (the batch path has no such step)
 C_Index(c) ==
+  /\ Live(c)
   /\ pc[c] = "c_index"
   /\ indexed' = indexed \cup ToSet(CurSub(c).invs)
   /\ Goto(c, "c_return")
@@ -190,6 +198,7 @@ C_Index(c) ==
                  accepted, execs, done, inBody, epoch, changes, crashes>>
 
 C_Return(c) ==
+  /\ Live(c)
   /\ pc[c] = "c_return"
   /\ accepted' = accepted \cup ToSet(CurSub(c).invs)
   /\ Goto(c, "c_next")
@@ -204,6 +213,7 @@ ClientStep(c) == C_Next(c) \/ C_Register(c) \/ C_Route(c) \/ C_Index(c) \/ C_Ret
 StartWorker(r, i) == pc' = [pc EXCEPT ![WorkerOf(r, i)] = "w_auth", ![PollerOf(r)] = "p_pop"]
 
 P_Start(a) ==
+  /\ Live(a)
   /\ pc[a] = "p_idle" /\ a[2] \notin stopping
   /\ GotoL(a, "p_pop", [EmptyLoc EXCEPT !.missing = PollN])
   /\ UNCHANGED <<queue, rec, indexed, retries, result, exc, hist, histq, alive, aged, expired, stopping,
@@ -211,6 +221,7 @@ P_Start(a) ==
 
 \* broker.retrieve_invocation()
 P_Pop(a) ==
+  /\ Live(a)
   /\ pc[a] = "p_pop"
   /\ IF loc[a].missing = 0 \/ queue = <<>>
        THEN /\ UNCHANGED queue
@@ -223,6 +234,7 @@ P_Pop(a) ==
 
 \* get_invocation_status(): not available for run -> the message is dropped
 P_Read(a) ==
+  /\ Live(a)
   /\ pc[a] = "p_read"
   /\ IF St(loc[a].cur) \in Available THEN Goto(a, "p_cand") /\ UNCHANGED loc
      ELSE GotoL(a, "p_pop", [loc[a] EXCEPT !.cur = NoInv])
@@ -231,6 +243,7 @@ P_Read(a) ==
 
 \* is_candidate_to_run_by_concurrency_control: same key PENDING or RUNNING ?
 P_Cand(a) ==
+  /\ Live(a)
   /\ pc[a] = "p_cand"
   /\ IF Blocked(loc[a].cur, {"pending", "running"})
        THEN Goto(a, IF RerouteOnCC THEN "p_setcc" ELSE "p_setccfinal")
@@ -242,6 +255,7 @@ P_Cand(a) ==
 \* NOT guarded in the code: a status error aborts the whole poll ("p_abort": the generator
 \* raises, the popped id and the collected reroute set are forgotten).
 P_SetCC(a) ==
+  /\ Live(a)
   /\ pc[a] \in {"p_setcc", "p_setccfinal"}
   /\ LET i == loc[a].cur  new == IF pc[a] = "p_setcc" THEN "concurrency_controlled"
                                  ELSE "concurrency_controlled_final" IN
@@ -256,6 +270,7 @@ P_SetCC(a) ==
 \* claim: set PENDING; status errors are caught, the poll goes on.  On success the
 \* invocation is yielded and the runner starts its thread at once.
 P_Claim(a) ==
+  /\ Live(a)
   /\ pc[a] = "p_claim"
   /\ LET i == loc[a].cur r == a[2] IN
      /\ Change(i, "pending", r)
@@ -268,6 +283,7 @@ P_Claim(a) ==
 
 \* reroute_invocations(collected): REROUTED (errors not caught) then queue push, one id at a time
 P_RrStatus(a) ==
+  /\ Live(a)
   /\ pc[a] = "p_rr_status"
   /\ LET i == Head(loc[a].rr) IN
      /\ Change(i, "rerouted", a[2])
@@ -277,6 +293,7 @@ P_RrStatus(a) ==
                  accepted, execs, done, inBody, crashes>>
 
 P_RrRoute(a) ==
+  /\ Live(a)
   /\ pc[a] = "p_rr_route"
   /\ queue' = Append(queue, loc[a].cur)
   /\ LET rest == Tail(loc[a].rr) IN
@@ -294,6 +311,7 @@ WEnd(a) == pc' = [pc EXCEPT ![a] = "w_none"]
 
 \* is_authorize_to_run_by_concurrency_control: same key RUNNING ?
 W_Auth(a) ==
+  /\ Live(a)
   /\ pc[a] = "w_auth"
   /\ Goto(a, IF Blocked(a[3], {"running"}) THEN "w_sr_status" ELSE "w_running")
   /\ UNCHANGED <<queue, rec, indexed, retries, result, exc, hist, histq, loc, alive, aged, expired, stopping,
@@ -301,6 +319,7 @@ W_Auth(a) ==
 
 \* not authorised: reroute self (REROUTED, push), then the RUNNING attempt fails and is swallowed
 W_SrStatus(a) ==
+  /\ Live(a)
   /\ pc[a] = "w_sr_status"
   /\ Change(a[3], "rerouted", a[2])
   /\ IF Ok(a[3], "rerouted", a[2]) THEN Goto(a, "w_sr_route") ELSE WEnd(a)
@@ -308,6 +327,7 @@ W_SrStatus(a) ==
                  accepted, execs, done, inBody, crashes>>
 
 W_SrRoute(a) ==
+  /\ Live(a)
   /\ pc[a] = "w_sr_route"
   /\ queue' = Append(queue, a[3])
   /\ Goto(a, "w_running")
@@ -315,6 +335,7 @@ W_SrRoute(a) ==
                  accepted, execs, done, inBody, epoch, changes, crashes>>
 
 W_SetRunning(a) ==
+  /\ Live(a)
   /\ pc[a] = "w_running"
   /\ LET i == a[3] r == a[2] IN
      /\ Change(i, "running", r)
@@ -328,6 +349,7 @@ W_SetRunning(a) ==
 
 \* the task body returns / raises
 W_Body(a) ==
+  /\ Live(a)
   /\ pc[a] = "w_body"
   /\ LET i == a[3] o == CurOutcome(i) IN
      /\ done' = [done EXCEPT ![i] = @ + 1]
@@ -340,6 +362,7 @@ W_Body(a) ==
                  clock, accepted, execs, epoch, changes, crashes>>
 
 W_SetResult(a) ==
+  /\ Live(a)
   /\ pc[a] = "w_set_result"
   /\ result' = [result EXCEPT ![a[3]] = loc[a].k]
   /\ Goto(a, "w_success")
@@ -347,6 +370,7 @@ W_SetResult(a) ==
                  accepted, execs, done, inBody, epoch, changes, crashes>>
 
 W_SetSuccess(a) ==
+  /\ Live(a)
   /\ pc[a] = "w_success"
   /\ Change(a[3], "success", a[2])
   /\ WEnd(a)
@@ -354,12 +378,14 @@ W_SetSuccess(a) ==
                  accepted, execs, done, inBody, crashes>>
 
 W_ReadRetries(a) ==
+  /\ Live(a)
   /\ pc[a] = "w_read_retries"
   /\ Goto(a, IF retries[a[3]] >= MaxRetries THEN "w_set_exc" ELSE "w_retry")
   /\ UNCHANGED <<queue, rec, indexed, retries, result, exc, hist, histq, loc, alive, aged, expired, stopping,
                  clock, accepted, execs, done, inBody, epoch, changes, crashes>>
 
 W_SetExc(a) ==
+  /\ Live(a)
   /\ pc[a] = "w_set_exc"
   /\ exc' = [exc EXCEPT ![a[3]] = loc[a].k]
   /\ Goto(a, "w_failed")
@@ -367,6 +393,7 @@ W_SetExc(a) ==
                  accepted, execs, done, inBody, epoch, changes, crashes>>
 
 W_SetFailed(a) ==
+  /\ Live(a)
   /\ pc[a] = "w_failed"
   /\ Change(a[3], "failed", a[2])
   /\ WEnd(a)
@@ -375,6 +402,7 @@ W_SetFailed(a) ==
 
 \* set_invocation_retry: RETRY, counter, queue push (three separate effects)
 W_SetRetry(a) ==
+  /\ Live(a)
   /\ pc[a] = "w_retry"
   /\ Change(a[3], "retry", a[2])
   /\ IF Ok(a[3], "retry", a[2]) THEN Goto(a, "w_inc") ELSE WEnd(a)
@@ -382,6 +410,7 @@ W_SetRetry(a) ==
                  accepted, execs, done, inBody, crashes>>
 
 W_Inc(a) ==
+  /\ Live(a)
   /\ pc[a] = "w_inc"
   /\ retries' = [retries EXCEPT ![a[3]] = @ + 1]
   /\ Goto(a, "w_retry_route")
@@ -389,6 +418,7 @@ W_Inc(a) ==
                  accepted, execs, done, inBody, epoch, changes, crashes>>
 
 W_RetryRoute(a) ==
+  /\ Live(a)
   /\ pc[a] = "w_retry_route"
   /\ queue' = Append(queue, a[3])
   /\ WEnd(a)
@@ -406,6 +436,7 @@ ScanSet(a) == IF a[1] = "rp" THEN {i \in Inv : St(i) = "pending" /\ i \in aged}
 RecStatus(a) == IF a[1] = "rp" THEN "pending_recovery" ELSE "running_recovery"
 
 R_Scan(a) ==
+  /\ Live(a)
   /\ pc[a] = "r_idle"
   /\ LET S == ScanSet(a) IN
      /\ S # {}
@@ -416,6 +447,7 @@ R_Scan(a) ==
 
 \* the id is added to the reroute set BEFORE the status call; an error aborts the task
 R_Mark(a) ==
+  /\ Live(a)
   /\ pc[a] = "r_mark"
   /\ IF loc[a].todo = <<>>
        THEN /\ UNCHANGED <<rec, clock, changes, epoch, aged, histq>>
@@ -429,6 +461,7 @@ R_Mark(a) ==
                  accepted, execs, done, inBody, crashes>>
 
 R_RrStatus(a) ==
+  /\ Live(a)
   /\ pc[a] = "r_rr_status"
   /\ LET i == Head(loc[a].rr) IN
      /\ Change(i, "rerouted", a[2])
@@ -438,6 +471,7 @@ R_RrStatus(a) ==
                  accepted, execs, done, inBody, crashes>>
 
 R_RrRoute(a) ==
+  /\ Live(a)
   /\ pc[a] = "r_rr_route"
   /\ queue' = Append(queue, loc[a].cur)
   /\ LET rest == Tail(loc[a].rr) IN
@@ -454,6 +488,7 @@ RecStep(a) == R_Scan(a) \/ R_Mark(a) \/ R_RrStatus(a) \/ R_RrRoute(a)
 Tracked(r) == {i \in Inv : \E k \in 1..Len(changes[i]) : changes[i][k] = <<"pending", r>>}
 
 S_Request(a) ==
+  /\ Live(a)
   /\ pc[a] = "s_idle" /\ a[2] \notin stopping /\ alive[a[2]]
   /\ stopping' = stopping \cup {a[2]}
   /\ Goto(a, "s_wait_loop")
@@ -462,6 +497,7 @@ S_Request(a) ==
 
 \* run() leaves its loop only between iterations: the poll in progress completes first
 S_LoopExit(a) ==
+  /\ Live(a)
   /\ pc[a] = "s_wait_loop" /\ pc[PollerOf(a[2])] = "p_idle"
   /\ \E order \in {s \in [1..Cardinality(Tracked(a[2])) -> Tracked(a[2])] :
                      \A x, y \in DOMAIN s : x # y => s[x] # s[y]} :
@@ -470,6 +506,7 @@ S_LoopExit(a) ==
                  clock, accepted, execs, done, inBody, epoch, changes, crashes>>
 
 S_Kill(a) ==
+  /\ Live(a)
   /\ pc[a] = "s_kill"
   /\ IF loc[a].todo = <<>>
        THEN /\ GotoL(a, "s_done", EmptyLoc)
@@ -482,6 +519,7 @@ S_Kill(a) ==
                  accepted, execs, done, inBody, crashes>>
 
 S_RrStatus(a) ==
+  /\ Live(a)
   /\ pc[a] = "s_rr_status"
   /\ Change(loc[a].cur, "rerouted", a[2])
   /\ Goto(a, IF Ok(loc[a].cur, "rerouted", a[2]) THEN "s_rr_route" ELSE "s_join")
@@ -489,6 +527,7 @@ S_RrStatus(a) ==
                  accepted, execs, done, inBody, crashes>>
 
 S_RrRoute(a) ==
+  /\ Live(a)
   /\ pc[a] = "s_rr_route"
   /\ queue' = Append(queue, loc[a].cur)
   /\ Goto(a, "s_join")
@@ -497,6 +536,7 @@ S_RrRoute(a) ==
 
 \* thread.join(): enabled only once the worker thread has ended
 S_Join(a) ==
+  /\ Live(a)
   /\ pc[a] = "s_join" /\ pc[WorkerOf(a[2], loc[a].cur)] = "w_none"
   /\ GotoL(a, "s_kill", [loc[a] EXCEPT !.todo = Tail(@), !.cur = NoInv])
   /\ UNCHANGED <<queue, rec, indexed, retries, result, exc, hist, histq, alive, aged, expired, stopping,
@@ -537,11 +577,42 @@ Crash(p) ==    \* hard death of a process: none of its actors ever moves again
 
 ----------------------------------------------------------------------------
 Next ==
-  \/ \E c \in ClientActors : Live(c) /\ ClientStep(c)
-  \/ \E a \in PollerActors : Live(a) /\ PollerStep(a)
-  \/ \E a \in WorkerActors : Live(a) /\ WorkerStep(a)
-  \/ \E a \in RecActors : Live(a) /\ RecStep(a)
-  \/ \E a \in StopActors : Live(a) /\ StopStep(a)
+  \/ \E a \in ClientActors : C_Next(a)
+  \/ \E a \in ClientActors : C_Register(a)
+  \/ \E a \in ClientActors : C_Route(a)
+  \/ \E a \in ClientActors : C_Index(a)
+  \/ \E a \in ClientActors : C_Return(a)
+  \/ \E a \in PollerActors : P_Start(a)
+  \/ \E a \in PollerActors : P_Pop(a)
+  \/ \E a \in PollerActors : P_Read(a)
+  \/ \E a \in PollerActors : P_Cand(a)
+  \/ \E a \in PollerActors : P_SetCC(a)
+  \/ \E a \in PollerActors : P_Claim(a)
+  \/ \E a \in PollerActors : P_RrStatus(a)
+  \/ \E a \in PollerActors : P_RrRoute(a)
+  \/ \E a \in WorkerActors : W_Auth(a)
+  \/ \E a \in WorkerActors : W_SrStatus(a)
+  \/ \E a \in WorkerActors : W_SrRoute(a)
+  \/ \E a \in WorkerActors : W_SetRunning(a)
+  \/ \E a \in WorkerActors : W_Body(a)
+  \/ \E a \in WorkerActors : W_SetResult(a)
+  \/ \E a \in WorkerActors : W_SetSuccess(a)
+  \/ \E a \in WorkerActors : W_ReadRetries(a)
+  \/ \E a \in WorkerActors : W_SetExc(a)
+  \/ \E a \in WorkerActors : W_SetFailed(a)
+  \/ \E a \in WorkerActors : W_SetRetry(a)
+  \/ \E a \in WorkerActors : W_Inc(a)
+  \/ \E a \in WorkerActors : W_RetryRoute(a)
+  \/ \E a \in RecActors : R_Scan(a)
+  \/ \E a \in RecActors : R_Mark(a)
+  \/ \E a \in RecActors : R_RrStatus(a)
+  \/ \E a \in RecActors : R_RrRoute(a)
+  \/ \E a \in StopActors : S_Request(a)
+  \/ \E a \in StopActors : S_LoopExit(a)
+  \/ \E a \in StopActors : S_Kill(a)
+  \/ \E a \in StopActors : S_RrStatus(a)
+  \/ \E a \in StopActors : S_RrRoute(a)
+  \/ \E a \in StopActors : S_Join(a)
   \/ \E e \in histq : H_Write(e)
   \/ \E i \in Inv : Age(i)
   \/ \E r \in Runner : Expire(r)
@@ -550,11 +621,11 @@ Next ==
 Spec == Init /\ [][Next]_vars
 
 Fairness ==
-  /\ \A c \in ClientActors : WF_vars(Live(c) /\ ClientStep(c))
-  /\ \A a \in PollerActors : WF_vars(Live(a) /\ PollerStep(a))
-  /\ \A a \in WorkerActors : WF_vars(Live(a) /\ WorkerStep(a))
-  /\ \A a \in RecActors : WF_vars(Live(a) /\ RecStep(a))
-  /\ \A a \in StopActors : WF_vars(Live(a) /\ a[2] \in stopping /\ StopStep(a))
+  /\ \A c \in ClientActors : WF_vars(ClientStep(c))
+  /\ \A a \in PollerActors : WF_vars(PollerStep(a))
+  /\ \A a \in WorkerActors : WF_vars(WorkerStep(a))
+  /\ \A a \in RecActors : WF_vars(RecStep(a))
+  /\ \A a \in StopActors : WF_vars(a[2] \in stopping /\ StopStep(a))
   /\ \A i \in Inv : WF_vars(Age(i))
   /\ \A r \in Runner : WF_vars(Expire(r))
 FairSpec == Spec /\ Fairness
